@@ -354,7 +354,7 @@ def arg_items(tier, marker):
     items = []
     for v in vs2:
         items.append(("pos", v))
-    for key in g.KW_KEYS + g.AGG_KEYS:
+    for key in g.KW_KEYS + g.AGG_KEYS + ("attrs",):
         for v in vs1:
             items.append(("kw", key, v))
     for v in (g.leaf(g.V("x")), g.leaf(g.V("d")), g.leaf(g.V("e")), g.leaf(g.V("y"), ("default", g.S(""))), g.leaf(g.V("s"))):
@@ -419,8 +419,9 @@ def all_cases(tier, marker):
     return itertools.chain(stream_A(tier, marker), stream_B(tier, marker), stream_C(tier, marker), stream_D(tier, marker))
 
 
-def _worker(w, W, payload):
-    tier, marker = payload
+def _worker_task(t):
+    """worker w of W walks the same deterministic case stream and takes the indices i = w (mod W)"""
+    w, W, (tier, marker) = t
     _setup()
     ctxs = g.contexts(marker)
     lay = {k: _layouts(v) for k, v in PART_LAYOUTS.items()}
@@ -428,39 +429,12 @@ def _worker(w, W, payload):
     for i, (part, args) in enumerate(all_cases(tier, marker)):
         if i % W != w:
             continue
-        top = part[0]
-        agg = aggs.get(top)
+        agg = aggs.get(part[0])
         if agg is None:
-            agg = aggs[top] = par.Agg()
+            agg = aggs[part[0]] = par.Agg()
         check_case(agg, part, args, lay[part], ctxs, marker)
     boot.clear_render_registries()
-    out = par.Agg()
-    out.extra["__parts__"] = 0
-    out.parts = {k: _pack(a) for k, a in aggs.items()}
-    return out
-
-
-def _pack(a):
-    return a
-
-
-class _PartsAgg(par.Agg):
-    pass
-
-
-def _merge_parts(results):
-    total = {}
-    for r in results:
-        for k, a in r.parts.items():
-            if k not in total:
-                total[k] = par.Agg()
-            total[k].merge(a)
-    return total
-
-
-def _worker_task(t):
-    w, W, payload = t
-    return _worker(w, W, payload).parts
+    return aggs
 
 
 MARKERS = ["", "q", "7", "Zz"]
